@@ -1,0 +1,7 @@
+//go:build !verif
+
+package engine
+
+import "github.com/jmeaster30/vore/libvore/bytecode"
+
+func verifStep(state *SearchEngineState, inst bytecode.SearchInstruction) {}
